@@ -57,7 +57,7 @@ class Finding:
 SEMANTIC_RULES = {
     "C01": {"R1", "R3", "R4", "E2E"},
     "C02": {"R1", "R2", "R3", "R5", "R7", "R8", "R9"},
-    "C03": {"R1", "R4", "R5", "R6", "R7", "R6v", "R8v"},
+    "C03": {"R1", "R4", "R5", "R6", "R7", "R6v", "R8v", "R9v"},
     "C04": {"R1", "R2", "R3", "R4", "R9", "R10", "R11"},
     "C05": {"R1", "R2", "R3", "R6", "R8", "R9", "R10"},
     "C06": {"R1", "R2", "R3", "R4", "R5", "R6v", "R8", "R8v", "R9v"},
@@ -69,8 +69,8 @@ SEMANTIC_RULES = {
     "C13": {"UNIQ", "LCA", "SIZED", "CONST", "XMODEL", "CONSTREJ", "DET", "EXPRv"},
     "C14": {"R1m", "R1t", "R1v", "R2", "R5"},
     "C16": {"CLONEv", "R4v", "R6", "R7", "R8", "R9a"},
-    "C17": {"R1", "R2", "R5", "R6", "R6w", "R3w"},
-    "C18": {"R1", "R2", "R3", "R4", "R5", "R3v"},
+    "C17": {"R1", "R2", "R5", "R6", "R6w", "R3w", "R7v"},
+    "C18": {"R1", "R2", "R3", "R4", "R5", "R3v", "R1v"},
     "C19": {"R1", "R2", "R3", "R3b", "R4", "R8", "R9", "R10", "R11", "A12", "R12"},
 }
 
